@@ -70,8 +70,10 @@ def run_case(ctx, res, spec):
     twin = build(spec)
     np.random.seed(spec['seed'])
     rng_before = []
+    counts_before = []          # event counters at the start of every step (to address events WITHIN a chosen step)
     for _ in range(steps):
         rng_before.append(np.random.get_state())
+        counts_before.append(dict(K.CRASH['count']))
         r = twin.refine(num_refine=20, update_bounds=False)
         if r['component'] is None:
             break
@@ -82,8 +84,18 @@ def run_case(ctx, res, spec):
     nsteps_done = len(twin.train_history)
     rnd = random.Random(spec['seed'])
     points = []
+    # steps that are the FIRST activation of a component: the state in the middle of such a step (some indices of the batch
+    # stored, nothing active yet) is the most fragile one
+    first_steps, seen = [], set()
+    for i, h in enumerate(twin.train_history):
+        if h['component'] not in seen:
+            seen.add(h['component']); first_steps.append(i)
     for kind, n in total_events.items():
-        ks = range(1, n + 1) if not ctx.quick else sorted(set([1, n] + rnd.sample(range(1, n + 1), min(3, n))))
+        if not ctx.quick:
+            ks = range(1, n + 1)
+        else:
+            inside = [counts_before[i].get(kind, 0) + j for i in first_steps if i < len(counts_before) for j in (1, 2, 3)]
+            ks = sorted({k for k in [1, 2, n] + inside + rnd.sample(range(1, n + 1), min(2, n)) if 1 <= k <= n})
         points.extend((kind, k) for k in ks)
     for kind, at in points:
         info = {'spec': spec, 'crash_kind': kind, 'crash_at': at}
@@ -148,8 +160,9 @@ def run_case(ctx, res, spec):
             hist_choices = [(h['component'], h['alpha'], h['beta']) for h in got['history']]
             twin_choices = [(h['component'], h['alpha'], h['beta']) for h in twin_state['history']]
             if hist_choices != twin_choices:
-                # different refinement choices: explained by F5b only when part of the data was stored before the crash
-                res.failures.append({'kind': 'resumed-training-makes-different-refinement-choices', 'signature': sig,
+                # different refinement choices are never explained by the cost undercount F5b here: the models report costs so
+                # small that the work of every candidate is floored at 1 (max(1, cost)), i.e. choices do not depend on costs
+                res.failures.append({'kind': 'resumed-training-makes-different-refinement-choices', 'signature': 'none',
                                      'input': info, 'observed': {'choices': hist_choices}, 'expected': {'choices': twin_choices}})
                 continue
             if core_diff:
